@@ -786,12 +786,21 @@ func runE2E(r *rng.R, tier, out string, m *meta) {
 		if q.Framing == "chunked" {
 			q.Chunks = []int{1 + q.BodyLen/3, 1 + q.BodyLen/3}
 		}
+		if k%2 == 1 {
+			q.Fields = append(q.Fields, g01rig.Field{Name: "Expect", Value: "100-continue"}) // the client waits, then sends the body anyway
+		}
 		reqs := []xreq{q}
 		if k%3 == 0 {
 			reqs = append(reqs, xreq{Method: "GET", Target: fmt.Sprintf("/after-slow-%d", k), Proto: "HTTP/1.1", Framing: "none",
 				Fields: []g01rig.Field{{Name: "Host", Value: "{O}"}}})
 		}
 		conns = append(conns, xconn{Kind: "e2e", Mode: "S", TrickleMs: int(slowHeaderTimeout/time.Millisecond)/2 + 50, Reqs: reqs})
+	}
+	for k := 0; k < 2; k++ { // Expect: 100-continue through the ordinary proxies (direct and via the upstream proxy)
+		q := xreq{Method: "PUT", Target: fmt.Sprintf("http://{O}/expect-%d", k), Proto: "HTTP/1.1", BodySeed: r.U64(), BodyLen: 4097, Framing: []string{"cl", "chunked"}[k],
+			Fields: []g01rig.Field{{Name: "Host", Value: "{O}"}, {Name: "Expect", Value: "100-continue"}}}
+		conns = append(conns, xconn{Kind: "e2e", Mode: []string{"D", "U"}[k], TrickleMs: 150, Reqs: []xreq{q,
+			{Method: "GET", Target: fmt.Sprintf("http://{O}/after-expect-%d", k), Proto: "HTTP/1.1", Framing: "none", Fields: []g01rig.Field{{Name: "Host", Value: "{O}"}}}}})
 	}
 	for total < nX {
 		c := genXconn(r)
